@@ -61,7 +61,17 @@ func runAggVerify(raw json.RawMessage, seed int64) (res Result) {
 	if w.Rng.Intn(5) == 0 {
 		hcls = "prefix128"
 	}
-	if hcls == "kmac" && w.Rng.Intn(3) == 0 { // (not seed%3: the case index and the seed are correlated)
+	sharedHasher := false
+	if hcls == "kmac" && w.Rng.Intn(4) == 0 {
+		// the messages are prefixes of different lengths of ONE buffer (slices with the same first byte address), all under one
+		// domain tag and handed over with one and the same hasher object
+		buf := w.randBytes(200)
+		m1 := w.Msg("m1")
+		for i, name := range []string{"m1", "m2", "m3"} {
+			w.msgs[name] = MsgDef{Tag: m1.Tag, Data: buf[: 40+37*i : 40+37*i]}
+		}
+		sharedHasher = true
+	} else if hcls == "kmac" && w.Rng.Intn(3) == 0 { // (not seed%3: the case index and the seed are correlated)
 		// distinct formal messages that share their BYTES and differ only by their per-index hasher (domain tag)
 		m1 := w.Msg("m1")
 		for _, name := range []string{"m2", "m3"} {
@@ -79,6 +89,9 @@ func runAggVerify(raw json.RawMessage, seed int64) (res Result) {
 		pks[i] = pk
 		msgs[i] = w.Msg(t.M).Data
 		hs[i] = w.Hasher(hcls, t.M)
+		if sharedHasher && i > 0 {
+			hs[i] = hs[0]
+		}
 		last = w.HashPoint(hcls, t.M).Mul(s)
 		sum = sum.Add(last)
 	}
